@@ -41,7 +41,11 @@ def r03a(ctx):
     cfg = cfg_of(f)
     loops = []
     for n in walk_no_nested(f.node):
-        if isinstance(n, ast.For) and (_mentions_attr(n.iter, "parts") or call_name(n.iter) == "get_parts") and isinstance(n.target, ast.Name):
+        it = n.iter if isinstance(n, ast.For) else None
+        if isinstance(it, ast.Name):  # `names = self.parts; for path in names:` — follow a single definition
+            ds = [a.value for a in walk_no_nested(f.node) if isinstance(a, ast.Assign) and any(isinstance(t, ast.Name) and t.id == it.id for t in a.targets)]
+            it = ds[0] if len(ds) == 1 else it
+        if isinstance(n, ast.For) and (_mentions_attr(it, "parts") or call_name(it) == "get_parts") and isinstance(n.target, ast.Name):
             v = n.target.id
             gp = [c for c in ast.walk(n) if isinstance(c, ast.Call) and call_name(c) == "get_part" and c.args and ast.unparse(c.args[0]) == v]
             if not gp:
@@ -507,6 +511,58 @@ def r03i(ctx):
                        "a part written with set_part() before it was ever read is overwritten by the old bytes of the folder, and the following save() writes those")
 
 
+def r03j(ctx):
+    """A bulk loader takes every member.
+
+    Opening from a buffer reads the whole archive at once; cloning and saving a path-opened container pre-load what has not been read.
+    What these loops skip is silently absent from the next save: empty files (a zero-length `Configurations2/accelerator/current.xml` is
+    declared in the manifest of the templates), directory entries, members filtered by name.  The only legitimate reason not to store a
+    member is that the part table already has it.  Rule: in every loop of Container over the member list (namelist / infolist / the folder
+    listing) that stores into the part table, the store is guarded by nothing but the absence of the key from the table, and no
+    `continue`/`break` in the loop is taken on another condition.
+    """
+    repo = ctx.repo
+    ctx.rule("R03j", "bulk loaders of the part table store every member of the source (the only filter: the key is already in the table)", floor=2)
+    c = repo.cls("Container")
+    n = 0
+
+    def is_table(e, aliases):
+        if isinstance(e, ast.Attribute) and e.attr.endswith("__parts") and isinstance(e.value, ast.Name) and e.value.id == "self":
+            return True
+        return isinstance(e, ast.Name) and e.id in aliases
+
+    for name, fs in sorted(c.methods.items()):
+        f = fs[0]
+        aliases = {a.targets[0].id for a in walk_no_nested(f.node) if isinstance(a, ast.Assign) and len(a.targets) == 1 and isinstance(a.targets[0], ast.Name) and is_table(a.value, set())}
+        for loop in [x for x in walk_no_nested(f.node) if isinstance(x, ast.For) and any(k in ast.unparse(x.iter) for k in ("namelist", "infolist", "_get_folder_parts"))]:
+            stores = [a for a in ast.walk(loop) if isinstance(a, ast.Assign) and isinstance(a.targets[0], ast.Subscript) and is_table(a.targets[0].value, aliases)]
+            if not stores:
+                continue
+
+            def about_table(t):
+                return any(isinstance(x, ast.Compare) and len(x.ops) == 1 and isinstance(x.ops[0], (ast.In, ast.NotIn)) and is_table(x.comparators[0], aliases) for x in ast.walk(t)) \
+                    and not any(isinstance(x, ast.BoolOp) for x in ast.walk(t))
+
+            bad = []
+            for st in stores:
+                for t, _pol in structural_guards(st, stop=loop):
+                    if not about_table(t):
+                        bad.append((st, t))
+            for j in ast.walk(loop):
+                if isinstance(j, (ast.Continue, ast.Break)):
+                    for t, _pol in structural_guards(j, stop=loop):
+                        if not about_table(t):
+                            bad.append((j, t))
+            n += 1
+            ctx.instance("R03j", f"{f.file}:{f.ident}", f"loop over `{norm(loop.iter, 30)}` stores every member", ok=not bad, nontrivial=True, line=loop.lineno)
+            for st, t in bad[:1]:
+                ctx.report("R03j", f, st, f"{norm(st, 40)} under `{norm(t, 40)}`",
+                           f"{c.name}.{name} leaves members of the source out of the part table on the condition `{norm(t, 50)}`: what is not loaded is missing from the next save "
+                           f"(empty files and directory entries are members too, and the manifest may declare them)")
+    if n == 0:
+        raise AnalysisError("R03j: no bulk loader of the part table found")
+
+
 def run(ctx):
     r03a(ctx)
     r03b(ctx)
@@ -517,6 +573,7 @@ def run(ctx):
     r03g(ctx)
     r03h(ctx)
     r03i(ctx)
+    r03j(ctx)
     # "reopen" is half of the property: a parser that drops blank text, comments or PIs loses content on the way back (rule shared with C11)
     from .c11 import r11de, r11h
     r11h(ctx)
@@ -534,6 +591,18 @@ SEEDS = [
          "            if self.__packaging == FOLDER:\n                cache_ts = self.__parts_ts.get(path, -1)", "R03i"),
     Seed("get_part tests the record first", "neutral", _CT,
          "            if self.__packaging == FOLDER and path in self.__parts_ts:", "            if path in self.__parts_ts and self.__packaging == FOLDER:"),
+    Seed("_read_zip skips empty members", "fault", _CT,
+         "                for name in zf.namelist():\n                    upath = normalize_path(name)\n                    self.__parts[upath] = zf.read(name)\n",
+         "                for info in zf.infolist():\n                    if not info.file_size:\n                        continue\n                    upath = normalize_path(info.filename)\n                    self.__parts[upath] = zf.read(info)\n", "R03j"),
+    Seed("_read_zip iterates the info list", "neutral", _CT,
+         "                for name in zf.namelist():\n                    upath = normalize_path(name)\n                    self.__parts[upath] = zf.read(name)\n",
+         "                for info in zf.infolist():\n                    upath = normalize_path(info.filename)\n                    self.__parts[upath] = zf.read(info)\n"),
+    Seed("Container.save pre-loads only when the table looks short", "fault", _CT,
+         "        for path in self.parts:\n            if path not in parts:\n                self.get_part(path)\n",
+         "        names = self.parts\n        if len(parts) < len(names):\n            for path in names:\n                if path not in parts:\n                    self.get_part(path)\n", "R03a"),
+    Seed("Container.save names the member list first", "neutral", _CT,
+         "        for path in self.parts:\n            if path not in parts:\n                self.get_part(path)\n",
+         "        names = self.parts\n        for path in names:\n            if path not in parts:\n                self.get_part(path)\n"),
     Seed("XmlPart.serialize writes the root element only", "fault", "src/odfdo/xmlpart.py",
          '        tree = self._get_tree()\n        bytes_tree = tostring(tree, encoding="unicode").encode("utf8")', '        root = self._get_tree().getroot()\n        bytes_tree = tostring(root, encoding="unicode").encode("utf8")', "R03e"),
     Seed("Document.set_part looks the class up before translating the shortcut", "fault", _DOC,
